@@ -23,21 +23,54 @@ extern "C" void harness(void) {
   getPluginRegistry().add("s", []() -> BasePlugin* { return new vfh::Scripted(); });
   vfw::add("", "", -1);
   for (int k = 0; k < H_NC; k++) vfw::add(kRel[k], kRel[k], 0);
+#if defined(H_STOP) && H_STOP == 10
+  return;
+#endif
   // which candidate cgroups are live (exist, resp. carry the xattr tag when a filter is configured) at which tick is
   // concrete per variant (H_LIVE bit t*H_NC+k): a symbolic liveness history makes every container loop symbolic.
   const int filter = H_FILTER; int delay = (int)vf_nd(K_DELAY, 0, 20);
   vf_cfg_set(CFG_FILTER, 0, filter); vf_cfg_set(CFG_DELAY, 0, delay);
+#if defined(H_STOP) && H_STOP == 11
+  return;
+#endif
   std::vector<std::unique_ptr<DetectorGroup>> dgs;
+#if defined(H_STOP) && H_STOP == 17
+  { BasePlugin* q1 = mk("s", 1); BasePlugin* q2 = mk("s", 2); vf_event(EV_NOTE, q1 != q2, 0, 0, 0); return; }
+#endif
+#if defined(H_STOP) && H_STOP == 18
+  { BasePlugin* q1 = mk("s", 1); BasePlugin* q2 = mk("s", 2); vf_event(EV_NOTE, q1 != q2, 0, 0, 0); delete q1; delete q2; return; }
+#endif
+#if defined(H_STOP) && H_STOP == 19
+  { BasePlugin* q1 = mk("s", 1); delete q1; BasePlugin* q2 = mk("s", 2); delete q2; return; }
+#endif
+#if defined(H_STOP) && H_STOP == 12
+  { BasePlugin* q = mk("s", 1); vf_event(EV_NOTE, q != nullptr, 0, 0, 0); return; }
+#endif
+#if defined(H_STOP) && H_STOP == 13
+  { std::vector<std::unique_ptr<BasePlugin>> ds; ds.emplace_back(mk("s", 1)); vf_event(EV_NOTE, 1, 0, 0, 0); return; }
+#endif
   {
     std::vector<std::unique_ptr<BasePlugin>> ds;
     for (int d = 0; d < H_D; d++) ds.emplace_back(mk("s", DET_ID(d)));
     dgs.emplace_back(new DetectorGroup("g0", std::move(ds)));
   }
+#if defined(H_STOP) && H_STOP == 14
+  return;
+#endif
   std::vector<std::unique_ptr<BasePlugin>> acts;
+#if defined(H_STOP) && H_STOP == 16
+  acts.emplace_back(mk("s", 2)); return;
+#endif
   for (int a = 0; a < H_A; a++) acts.emplace_back(mk("s", ACT_ID(a)));
   vf_event(EV_OP, 1, 0, 0, 0);   // end of template construction
+#if defined(H_STOP) && H_STOP == 1
+  return;
+#endif
   Ruleset rs("r0", std::move(dgs), std::move(acts), false, false, false, 0, delay, PREKILL_TIMEOUT_S, filter ? "t" : "", "/c", "c*");
   OomdContext ctx;
+#if defined(H_STOP) && H_STOP == 2
+  return;
+#endif
   for (int t = 0; t < H_T; t++) {
     for (int k = 0; k < H_NC; k++) {
       const int live = (H_LIVE >> (t * H_NC + k)) & 1;
@@ -54,6 +87,9 @@ extern "C" void harness(void) {
     vf_event(EV_TICK, t, vf_clock_ns(), 0, 0);
     ctx.refresh();
     rs.prerun(ctx);
+#if defined(H_STOP) && H_STOP == 3
+    return;
+#endif
     rs.runOnce(ctx);
   }
   vf_event(EV_END, 0, 0, 0, 0);
